@@ -1,7 +1,411 @@
 import WsVerif.Model.Stats
-import Mathlib.Algebra.BigOperators.Group.List.Basic
-import Mathlib.Algebra.Order.Field.Rat
-/-! placeholder until the permutation theorems land (replaced by the full file) -/
+import WsVerif.Model.Peak
+import WsVerif.Lemmas.Perm
+import WsVerif.Lemmas.Argmax
+import WsVerif.Props.C01
+/-!
+# C05 — results depend on the labelled values, not on the storage order
+
+A spectrum is `e : Mat` (rows = frequencies, columns = directions **in stored order**) together with the
+direction-indexed tables `s c t : Vec` (sin / cos / projection table per stored direction) and the stored
+direction labels `dirs : Vec`.  No memory layout exists in the model; the stored direction *order* does.
+
+A re-ordering of the stored directions acts on the columns of every row and on every direction-indexed
+table alike.  It is described in the most general way by two relations (`Lemmas/Perm.lean`):
+
+* `RowsPerm e e'` — each row of `e'` is a permutation of the same row of `e`;
+* `Alike t t' e e'` — in each row the (value, table entry) pairs are the same multiset before and after.
+
+Both hold (theorems `rowsPerm_*`, `alike_*` below) for the concrete re-orderings the property names —
+`List.rotate k` (the stored sequence starts elsewhere on the circle), `List.reverse` (descending storage) —
+and for `reorder σ` with `σ` *any* permutation of the column indices (in particular the sorting
+permutation: "sort before = sort after").  The statistics theorems are stated for the relations and then
+specialised.  All statements hold for every number of frequencies and directions.
+-/
 namespace WS.C05
-theorem sum_perm (a b : List ℚ) (h : a.Perm b) : a.sum = b.sum := h.sum_eq
+open WS WS.Stats WS.Peak
+
+/-! ### the concrete re-orderings satisfy the relations -/
+
+theorem rowsPerm_rotate (e : Mat) (k : Nat) : RowsPerm e (e.map (·.rotate k)) :=
+  forall₂_map_same _ e fun r _ => (List.rotate_perm r k).symm
+
+theorem rowsPerm_reverse (e : Mat) : RowsPerm e (e.map List.reverse) :=
+  forall₂_map_same _ e fun r _ => (List.reverse_perm r).symm
+
+theorem rowsPerm_reorder {σ : List Nat} {m : Nat} (hσ : σ.Perm (List.range m)) (e : Mat)
+    (hrow : ∀ r ∈ e, r.length = m) : RowsPerm e (e.map (reorder σ)) :=
+  forall₂_map_same _ e fun r hr => (reorder_perm hσ r (hrow r hr)).symm
+
+theorem alike_rotate (t : Vec) (e : Mat) (k : Nat) (hrow : ∀ r ∈ e, r.length = t.length) :
+    Alike t (t.rotate k) e (e.map (·.rotate k)) := by
+  unfold Alike
+  refine forall₂_map_same _ e fun r hr => ?_
+  · rw [List.zip_eq_zipWith, List.zip_eq_zipWith, ← List.zipWith_rotate_distrib _ _ _ _ (hrow r hr)]
+    exact (List.rotate_perm _ k).symm
+
+theorem alike_reverse (t : Vec) (e : Mat) (hrow : ∀ r ∈ e, r.length = t.length) :
+    Alike t t.reverse e (e.map List.reverse) := by
+  unfold Alike
+  refine forall₂_map_same _ e fun r hr => ?_
+  · rw [List.zip_eq_zipWith, List.zip_eq_zipWith, ← List.reverse_zipWith (hrow r hr)]
+    exact (List.reverse_perm _).symm
+
+theorem alike_reorder {σ : List Nat} {m : Nat} (hσ : σ.Perm (List.range m)) (t : Vec) (e : Mat)
+    (ht : t.length = m) (hrow : ∀ r ∈ e, r.length = m) :
+    Alike t (reorder σ t) e (e.map (reorder σ)) := by
+  unfold Alike
+  exact forall₂_map_same _ e fun r hr => reorder_zip_perm hσ r t (hrow r hr) ht
+
+/-- rotation and reversal are index re-orderings -/
+theorem rotate_is_reorder (l : Vec) (k : Nat) :
+    l.rotate k = reorder ((List.range l.length).rotate k) l ∧
+    ((List.range l.length).rotate k).Perm (List.range l.length) :=
+  ⟨rotate_eq_reorder l _ k rfl, List.rotate_perm _ k⟩
+
+theorem reverse_is_reorder (l : Vec) :
+    l.reverse = reorder (List.range l.length).reverse l ∧
+    (List.range l.length).reverse.Perm (List.range l.length) :=
+  ⟨reverse_eq_reorder l _ rfl, List.reverse_perm _⟩
+
+/-! ### statistics of the direction-integrated spectrum -/
+
+/-- the direction-integrated spectrum does not depend on the stored order of the directions -/
+theorem oned_perm (ddv : ℚ) {e e' : Mat} (h : RowsPerm e e') : oned ddv e = oned ddv e' :=
+  map_forall₂ h fun _ _ hr => by rw [hr.sum_eq]
+
+theorem m0E_perm (ddv : ℚ) (f : Vec) {e e' : Mat} (h : RowsPerm e e') :
+    m0E f (oned ddv e) = m0E f (oned ddv e') := by rw [oned_perm ddv h]
+
+theorem hsE_perm (thr q : ℚ) (tail : Bool) (ddv : ℚ) (f : Vec) {e e' : Mat} (h : RowsPerm e e') :
+    hsE thr q tail f (oned ddv e) = hsE thr q tail f (oned ddv e') := by rw [oned_perm ddv h]
+
+theorem momf_perm (k : Nat) (ddv : ℚ) (f : Vec) {e e' : Mat} (h : RowsPerm e e') :
+    momf k f (oned ddv e) = momf k f (oned ddv e') := by rw [oned_perm ddv h]
+
+theorem tm01_perm (ddv : ℚ) (f : Vec) {e e' : Mat} (h : RowsPerm e e') :
+    tm01 f (oned ddv e) = tm01 f (oned ddv e') := by rw [oned_perm ddv h]
+
+theorem tm02Sq_perm (ddv : ℚ) (f : Vec) {e e' : Mat} (h : RowsPerm e e') :
+    tm02Sq f (oned ddv e) = tm02Sq f (oned ddv e') := by rw [oned_perm ddv h]
+
+theorem sweSq_perm (ddv : ℚ) (f : Vec) {e e' : Mat} (h : RowsPerm e e') :
+    sweSq f (oned ddv e) = sweSq f (oned ddv e') := by rw [oned_perm ddv h]
+
+theorem swSq_perm (ddv : ℚ) (f : Vec) {e e' : Mat} (h : RowsPerm e e') :
+    swSq f (oned ddv e) = swSq f (oned ddv e') := by rw [oned_perm ddv h]
+
+theorem gwSq_perm (thr q ddv : ℚ) (f : Vec) {e e' : Mat} (h : RowsPerm e e') :
+    gwSq thr q f (oned ddv e) = gwSq thr q f (oned ddv e') := by rw [oned_perm ddv h]
+
+theorem goda_perm (ddv : ℚ) (f : Vec) {e e' : Mat} (h : RowsPerm e e') :
+    goda f (oned ddv e) = goda f (oned ddv e') := by rw [oned_perm ddv h]
+
+theorem mss_perm (ddv : ℚ) (k2 f : Vec) {e e' : Mat} (h : RowsPerm e e') :
+    mss k2 f (oned ddv e) = mss k2 f (oned ddv e') := by rw [oned_perm ddv h]
+
+/-- peak frequency (index, smooth and discrete value) -/
+theorem fp_perm (ddv : ℚ) (f : Vec) {e e' : Mat} (h : RowsPerm e e') :
+    peakIdx (oned ddv e) = peakIdx (oned ddv e') ∧
+    fpSmooth f (oned ddv e) = fpSmooth f (oned ddv e') ∧
+    fpDiscrete f (oned ddv e) = fpDiscrete f (oned ddv e') := by rw [oned_perm ddv h]; simp
+
+/-! ### directional moments: rows and table re-ordered alike -/
+
+/-- per-frequency first directional moment `Σ_j Δθ E_ij t_j` -/
+theorem momdRow_perm (ddv : ℚ) {t t' : Vec} {e e' : Mat} (h : Alike t t' e e') :
+    momdRow ddv t e = momdRow ddv t' e' :=
+  map_forall₂ h fun _ _ hr => sum_zipWith_perm _ hr
+
+theorem dmVec_perm (ddv : ℚ) {s s' c c' : Vec} {e e' : Mat} (hs : Alike s s' e e') (hc : Alike c c' e e') :
+    dmVec ddv s c e = dmVec ddv s' c' e' := by
+  unfold dmVec; rw [momdRow_perm ddv hs, momdRow_perm ddv hc]
+
+theorem dsprABE_perm (ddv : ℚ) (f : Vec) {s s' c c' : Vec} {e e' : Mat} (h : RowsPerm e e')
+    (hs : Alike s s' e e') (hc : Alike c c' e e') :
+    dsprABE ddv s c f e = dsprABE ddv s' c' f e' := by
+  unfold dsprABE; rw [momdRow_perm ddv hs, momdRow_perm ddv hc, oned_perm ddv h]
+
+theorem dpmVec_perm (ddv : ℚ) {s s' c c' : Vec} {e e' : Mat} (h : RowsPerm e e')
+    (hs : Alike s s' e e') (hc : Alike c c' e e') :
+    dpmVec ddv s c e = dpmVec ddv s' c' e' := by
+  unfold dpmVec; rw [momdRow_perm ddv hs, momdRow_perm ddv hc, oned_perm ddv h]
+
+theorem dpsprABE_perm (ddv : ℚ) (f : Vec) {s s' c c' : Vec} {e e' : Mat} (h : RowsPerm e e')
+    (hs : Alike s s' e e') (hc : Alike c c' e e') :
+    dpsprABE ddv s c f e = dpsprABE ddv s' c' f e' := by
+  unfold dpsprABE; rw [momdRow_perm ddv hs, momdRow_perm ddv hc, oned_perm ddv h]
+
+/-- Stokes-drift style double sums (`uss_x`, `uss_y`, `uss`): the projection table re-ordered alike -/
+theorem ussSum_perm (ddv : ℚ) (fk f : Vec) {t t' : Vec} {e e' : Mat} (h : Alike t t' e e') :
+    ussSum ddv fk t f e = ussSum ddv fk t' f e' := by
+  unfold ussSum
+  rw [zipWith_forall₂ h _ fun p _ _ hr => sum_zipWith_perm (fun x y => ddv * p.1 * y * x * p.2) hr]
+
+/-- the published double-sum definitions are invariant as well -/
+theorem specDirMom_perm (ddv : ℚ) (f : Vec) {t t' : Vec} {e e' : Mat} (h : Alike t t' e e') :
+    specDirMom ddv t f e = specDirMom ddv t' f e' := by
+  rw [← C01.momd_eq_spec, ← C01.momd_eq_spec, momdRow_perm ddv h]
+
+theorem specMom_perm (k : Nat) (ddv : ℚ) (f : Vec) {e e' : Mat} (h : RowsPerm e e') :
+    specMom k ddv f e = specMom k ddv f e' := by
+  rw [← C01.momf_eq_spec, ← C01.momf_eq_spec, oned_perm ddv h]
+
+/-! ### `to_energy`: the labelled values agree -/
+
+/-- relational form: if (value, direction label) pairs agree row by row before, they agree after -/
+theorem toEnergy_perm (ddv : ℚ) (f : Vec) {dirs dirs' : Vec} {e e' : Mat} (h : Alike dirs dirs' e e') :
+    Alike dirs dirs' (toEnergy ddv f e) (toEnergy ddv f e') := by
+  unfold toEnergy
+  refine forall₂_zipWith_left (R' := fun (r r' : Vec) => (r.zip dirs).Perm (r'.zip dirs')) h (df f) ?_
+  intro r r' d hr
+  rw [List.zip_map_left, List.zip_map_left]
+  exact hr.map _
+
+/-- `to_energy` commutes with any column operation that commutes with the scaling of a row -/
+theorem toEnergy_comm (ddv : ℚ) (f : Vec) (e : Mat) (P : Vec → Vec)
+    (hP : ∀ d r, P (r.map fun x => x * d * ddv) = (P r).map fun x => x * d * ddv) :
+    toEnergy ddv f (e.map P) = (toEnergy ddv f e).map P := by
+  unfold toEnergy
+  rw [List.zipWith_map_left, List.map_zipWith]
+  congr 1
+  funext r d
+  exact (hP d r).symm
+
+/-- `to_energy` of the rotated storage is the rotated `to_energy` -/
+theorem toEnergy_rotate (ddv : ℚ) (f : Vec) (e : Mat) (k : Nat) :
+    toEnergy ddv f (e.map (·.rotate k)) = (toEnergy ddv f e).map (·.rotate k) :=
+  toEnergy_comm ddv f e _ fun _ r => (List.map_rotate _ r k).symm
+
+theorem toEnergy_reverse (ddv : ℚ) (f : Vec) (e : Mat) :
+    toEnergy ddv f (e.map List.reverse) = (toEnergy ddv f e).map List.reverse :=
+  toEnergy_comm ddv f e _ fun _ _ => List.map_reverse.symm
+
+theorem toEnergy_reorder (ddv : ℚ) (f : Vec) (e : Mat) (σ : List Nat) :
+    toEnergy ddv f (e.map (reorder σ)) = (toEnergy ddv f e).map (reorder σ) :=
+  toEnergy_comm ddv f e _ fun d r => reorder_map σ _ (by ring) r
+
+/-! ### everything at once; rotation, reversal, sorting -/
+
+/-- all integrated statistics of the model that involve the direction axis -/
+def allStats (thr q : ℚ) (tail : Bool) (ddv : ℚ) (f k2 fk s c t : Vec) (e : Mat) :=
+  (oned ddv e, hsE thr q tail f (oned ddv e), m0E f (oned ddv e), (fun k => momf k f (oned ddv e)),
+   tm01 f (oned ddv e), tm02Sq f (oned ddv e), sweSq f (oned ddv e), swSq f (oned ddv e),
+   gwSq thr q f (oned ddv e), goda f (oned ddv e), mss k2 f (oned ddv e),
+   fpSmooth f (oned ddv e), fpDiscrete f (oned ddv e),
+   dmVec ddv s c e, dsprABE ddv s c f e, dpmVec ddv s c e, dpsprABE ddv s c f e, ussSum ddv fk t f e)
+
+theorem allStats_perm (thr q : ℚ) (tail : Bool) (ddv : ℚ) (f k2 fk : Vec) {s s' c c' t t' : Vec} {e e' : Mat}
+    (h : RowsPerm e e') (hs : Alike s s' e e') (hc : Alike c c' e e') (ht : Alike t t' e e') :
+    allStats thr q tail ddv f k2 fk s c t e = allStats thr q tail ddv f k2 fk s' c' t' e' := by
+  unfold allStats
+  rw [oned_perm ddv h, dmVec_perm ddv hs hc, dsprABE_perm ddv f h hs hc, dpmVec_perm ddv h hs hc,
+    dpsprABE_perm ddv f h hs hc, ussSum_perm ddv fk f ht]
+
+/-- the stored direction sequence starts elsewhere on the circle -/
+theorem allStats_rotate (thr q : ℚ) (tail : Bool) (ddv : ℚ) (f k2 fk s c t : Vec) (e : Mat) (m k : Nat)
+    (hs : s.length = m) (hc : c.length = m) (ht : t.length = m) (hrow : ∀ r ∈ e, r.length = m) :
+    allStats thr q tail ddv f k2 fk (s.rotate k) (c.rotate k) (t.rotate k) (e.map (·.rotate k)) =
+      allStats thr q tail ddv f k2 fk s c t e :=
+  (allStats_perm thr q tail ddv f k2 fk (rowsPerm_rotate e k)
+    (alike_rotate s e k fun r hr => by rw [hrow r hr, hs])
+    (alike_rotate c e k fun r hr => by rw [hrow r hr, hc])
+    (alike_rotate t e k fun r hr => by rw [hrow r hr, ht])).symm
+
+/-- descending instead of ascending storage -/
+theorem allStats_reverse (thr q : ℚ) (tail : Bool) (ddv : ℚ) (f k2 fk s c t : Vec) (e : Mat) (m : Nat)
+    (hs : s.length = m) (hc : c.length = m) (ht : t.length = m) (hrow : ∀ r ∈ e, r.length = m) :
+    allStats thr q tail ddv f k2 fk s.reverse c.reverse t.reverse (e.map List.reverse) =
+      allStats thr q tail ddv f k2 fk s c t e :=
+  (allStats_perm thr q tail ddv f k2 fk (rowsPerm_reverse e)
+    (alike_reverse s e fun r hr => by rw [hrow r hr, hs])
+    (alike_reverse c e fun r hr => by rw [hrow r hr, hc])
+    (alike_reverse t e fun r hr => by rw [hrow r hr, ht])).symm
+
+/-- **sort before = sort after**: for *any* permutation `σ` of the stored direction indices — in particular
+    the one that sorts the direction labels — computing the statistics on the re-ordered storage gives the
+    statistics of the original storage -/
+theorem sort_before_eq_sort_after (thr q : ℚ) (tail : Bool) (ddv : ℚ) (f k2 fk s c t : Vec) (e : Mat)
+    (m : Nat) (σ : List Nat) (hσ : σ.Perm (List.range m))
+    (hs : s.length = m) (hc : c.length = m) (ht : t.length = m) (hrow : ∀ r ∈ e, r.length = m) :
+    allStats thr q tail ddv f k2 fk (reorder σ s) (reorder σ c) (reorder σ t) (e.map (reorder σ)) =
+      allStats thr q tail ddv f k2 fk s c t e :=
+  (allStats_perm thr q tail ddv f k2 fk (rowsPerm_reorder hσ e hrow)
+    (alike_reorder hσ s e hs hrow) (alike_reorder hσ c e hc hrow) (alike_reorder hσ t e ht hrow)).symm
+
+/-! ### `dd` of a uniform full-circle grid, however it is stored -/
+
+/-- if cyclically consecutive stored labels differ by `δ` or `360 − δ`, the bin width is `δ` -/
+theorem dd_of_circAdj (δ : ℚ) (S : Vec) (hδ : 0 ≤ δ) (hδ2 : δ ≤ 180) (hlen : 2 ≤ S.length)
+    (h : CircAdj δ S) : dd (some S) = δ := by
+  match S, hlen, h with
+  | a :: b :: rest, hlen, h =>
+    have h0 := h 0 (by simp)
+    have e : (0 + 1) % (a :: b :: rest).length = 1 := Nat.mod_eq_of_lt (by simp)
+    rw [e] at h0
+    exact C01.dd_seam a b δ rest hδ hδ2 h0
+
+theorem uniform_bounds (δ : ℚ) (m : Nat) (hm : 2 ≤ m) (hfull : (m : ℚ) * δ = 360) : 0 < δ ∧ δ ≤ 180 := by
+  have h2 : (2 : ℚ) ≤ (m : ℚ) := by exact_mod_cast hm
+  have hpos : 0 < δ := by
+    by_contra hn
+    have : (m : ℚ) * δ ≤ 0 := mul_nonpos_of_nonneg_of_nonpos (by linarith) (not_lt.mp hn)
+    linarith
+  exact ⟨hpos, by nlinarith⟩
+
+/-- `dd` does not depend on where the stored sequence of a uniform full-circle grid starts, nor on its
+    sense, nor on whether the labels are reduced to `[0, 360)`: for `θ_j = θ0 + j·δ`, `m·δ = 360`, `m ≥ 2`,
+    stored rotated by any `k`, reversed, or both, `dd = δ` -/
+theorem dd_rot_rev (θ0 δ : ℚ) (m k : Nat) (hm : 2 ≤ m) (hfull : (m : ℚ) * δ = 360) :
+    dd (some ((ugrid θ0 δ m).rotate k)) = δ ∧
+    dd (some (ugrid θ0 δ m).reverse) = δ ∧
+    dd (some ((ugrid θ0 δ m).rotate k).reverse) = δ ∧
+    dd (some ((ugrid θ0 δ m).reverse.rotate k)) = δ ∧
+    dd (some ((ugridMod θ0 δ m).rotate k)) = δ ∧
+    dd (some (ugridMod θ0 δ m).reverse) = δ ∧
+    dd (some ((ugridMod θ0 δ m).rotate k).reverse) = δ ∧
+    dd (some ((ugridMod θ0 δ m).reverse.rotate k)) = δ := by
+  obtain ⟨hδ, hδ2⟩ := uniform_bounds δ m hm hfull
+  have h1 := circAdj_ugrid θ0 δ m hδ hδ2 hfull
+  have h2 := circAdj_ugridMod θ0 δ m hδ hδ2 hfull
+  have l1 : (ugrid θ0 δ m).length = m := by simp [ugrid]
+  have l2 : (ugridMod θ0 δ m).length = m := by simp [ugridMod]
+  refine ⟨?_, ?_, ?_, ?_, ?_, ?_, ?_, ?_⟩ <;> apply dd_of_circAdj δ _ hδ.le hδ2
+  all_goals first
+    | (simp only [List.length_rotate, List.length_reverse, l1, l2]; exact hm)
+    | skip
+  · exact circAdj_rotate h1 k
+  · exact circAdj_reverse h1
+  · exact circAdj_reverse (circAdj_rotate h1 k)
+  · exact circAdj_rotate (circAdj_reverse h1) k
+  · exact circAdj_rotate h2 k
+  · exact circAdj_reverse h2
+  · exact circAdj_reverse (circAdj_rotate h2 k)
+  · exact circAdj_rotate (circAdj_reverse h2) k
+
+/-- in particular the grid as generated (`k = 0`) -/
+theorem dd_uniform (θ0 δ : ℚ) (m : Nat) (hm : 2 ≤ m) (hfull : (m : ℚ) * δ = 360) :
+    dd (some (ugrid θ0 δ m)) = δ ∧ dd (some (ugridMod θ0 δ m)) = δ := by
+  have := dd_rot_rev θ0 δ m 0 hm hfull
+  simp only [List.rotate_zero] at this
+  exact ⟨this.1, this.2.2.2.2.1⟩
+
+/-! ### peak direction: the label, not the position -/
+
+theorem colSums_rotate (m k : Nat) (e : Mat) (hrow : ∀ r ∈ e, r.length = m) :
+    colSums m (e.map (·.rotate k)) = (colSums m e).rotate k := by
+  have : e.map (·.rotate k) = e.map (reorder ((List.range m).rotate k)) :=
+    List.map_congr_left fun r hr => rotate_eq_reorder r m k (hrow r hr)
+  rw [this, colSums_reorder (List.rotate_perm _ k), ← rotate_eq_reorder _ m k (colSums_length m e)]
+
+theorem colSums_reverse (m : Nat) (e : Mat) (hrow : ∀ r ∈ e, r.length = m) :
+    colSums m (e.map List.reverse) = (colSums m e).reverse := by
+  have : e.map List.reverse = e.map (reorder (List.range m).reverse) :=
+    List.map_congr_left fun r hr => reverse_eq_reorder r m (hrow r hr)
+  rw [this, colSums_reorder (List.reverse_perm _), ← reverse_eq_reorder _ m (colSums_length m e)]
+
+/-- whatever the storage order, the direction label returned by `dp` is the label of *a* maximiser of the
+    frequency-summed spectrum -/
+theorem dp_perm_is_maximiser (m : Nat) (hm : 0 < m) {σ : List Nat} (hσ : σ.Perm (List.range m))
+    (dirs : Vec) (e : Mat) :
+    ∃ q < m, (∀ i < m, getR (colSums m e) i ≤ getR (colSums m e) q) ∧
+      getR (reorder σ dirs) (dpIdx m (e.map (reorder σ))) = getR dirs q := by
+  unfold dpIdx
+  rw [colSums_reorder hσ]
+  have hl := colSums_length m e
+  have hne : colSums m e ≠ [] := by
+    intro h; rw [h] at hl; simp at hl; omega
+  obtain ⟨h1, h2, h3⟩ := argmax_reorder (σ := σ) (colSums m e) (by rw [hl]; exact hσ) hne
+  rw [hl] at h2 h3
+  exact ⟨_, h2, h3, getR_reorder σ dirs _ h1⟩
+
+/-- if the frequency-summed spectrum has a unique maximum, the peak-direction **label** is the same for
+    every storage order -/
+theorem dp_perm_unique_max (m : Nat) (hm : 0 < m) {σ : List Nat} (hσ : σ.Perm (List.range m))
+    (dirs : Vec) (e : Mat)
+    (hu : ∀ j < m, j ≠ dpIdx m e → getR (colSums m e) j < getR (colSums m e) (dpIdx m e)) :
+    getR (reorder σ dirs) (dpIdx m (e.map (reorder σ))) = getR dirs (dpIdx m e) := by
+  obtain ⟨q, hq, hmax, hlab⟩ := dp_perm_is_maximiser m hm hσ dirs e
+  rw [hlab]
+  by_cases hqp : q = dpIdx m e
+  · rw [hqp]
+  · exfalso
+    have h1 := hu q hq hqp
+    have hne : colSums m e ≠ [] := by
+      intro h; have := colSums_length m e; rw [h] at this; simp at this; omega
+    have hp : dpIdx m e < m := by
+      have := (argmaxFirst_spec (colSums m e) hne).1
+      rwa [colSums_length] at this
+    have h2 := hmax (dpIdx m e) hp
+    linarith
+
+theorem dp_rotate_unique_max (m k : Nat) (hm : 0 < m) (dirs : Vec) (e : Mat)
+    (hd : dirs.length = m) (hrow : ∀ r ∈ e, r.length = m)
+    (hu : ∀ j < m, j ≠ dpIdx m e → getR (colSums m e) j < getR (colSums m e) (dpIdx m e)) :
+    getR (dirs.rotate k) (dpIdx m (e.map (·.rotate k))) = getR dirs (dpIdx m e) := by
+  have he : e.map (·.rotate k) = e.map (reorder ((List.range m).rotate k)) :=
+    List.map_congr_left fun r hr => rotate_eq_reorder r m k (hrow r hr)
+  rw [he, rotate_eq_reorder dirs m k hd]
+  exact dp_perm_unique_max m hm (List.rotate_perm _ k) dirs e hu
+
+theorem dp_reverse_unique_max (m : Nat) (hm : 0 < m) (dirs : Vec) (e : Mat)
+    (hd : dirs.length = m) (hrow : ∀ r ∈ e, r.length = m)
+    (hu : ∀ j < m, j ≠ dpIdx m e → getR (colSums m e) j < getR (colSums m e) (dpIdx m e)) :
+    getR dirs.reverse (dpIdx m (e.map List.reverse)) = getR dirs (dpIdx m e) := by
+  have he : e.map List.reverse = e.map (reorder (List.range m).reverse) :=
+    List.map_congr_left fun r hr => reverse_eq_reorder r m (hrow r hr)
+  rw [he, reverse_eq_reorder dirs m hd]
+  exact dp_perm_unique_max m hm (List.reverse_perm _) dirs e hu
+
+/-- why uniqueness is needed: with two equal maxima the first *stored* one wins, so reversal changes the
+    label (`[10, 20, 30]` → `10` as stored, `30` reversed) -/
+theorem dp_tie_depends_on_order :
+    getR [10, 20, 30] (dpIdx 3 [[1, 0, 1]]) = 10 ∧
+    getR [10, 20, 30].reverse (dpIdx 3 ([[1, 0, 1]].map List.reverse)) = 30 := by decide +kernel
+
+/-! ### non-vacuity of the hypotheses -/
+
+example : RowsPerm [[1, 2, 3], [4, 5, 6]] ([[1, 2, 3], [4, 5, 6]].map (·.rotate 1)) := rowsPerm_rotate _ 1
+example := alike_rotate [7, 8, 9] [[1, 2, 3], [4, 5, 6]] 2 (by decide)
+example := alike_reverse [7, 8, 9] [[1, 2, 3], [4, 5, 6]] (by decide)
+example : [2, 0, 1].Perm (List.range 3) := by decide
+example := alike_reorder (σ := [2, 0, 1]) (m := 3) (by decide) [7, 8, 9] [[1, 2, 3], [4, 5, 6]] rfl (by decide)
+example := allStats_rotate (333/1000) (1/4) true 120 [1/10, 2/10] [1, 1] [1, 1] [0, 1, -1] [1, 0, 0] [1, 1, 1]
+  [[1, 2, 3], [4, 5, 6]] 3 1 rfl rfl rfl (by decide)
+example := allStats_reverse (333/1000) (1/4) true 120 [1/10, 2/10] [1, 1] [1, 1] [0, 1, -1] [1, 0, 0] [1, 1, 1]
+  [[1, 2, 3], [4, 5, 6]] 3 rfl rfl rfl (by decide)
+example := sort_before_eq_sort_after (333/1000) (1/4) true 120 [1/10, 2/10] [1, 1] [1, 1] [0, 1, -1] [1, 0, 0]
+  [1, 1, 1] [[1, 2, 3], [4, 5, 6]] 3 [2, 0, 1] (by decide) rfl rfl rfl (by decide)
+example : momdRow 120 [0, 1, -1] [[1, 2, 3], [4, 5, 6]] =
+    momdRow 120 ([0, 1, -1].rotate 1) ([[1, 2, 3], [4, 5, 6]].map (·.rotate 1)) := by decide +kernel
+/-- the WW3-style seam: 8 directions of 45°, stored from 315 — `dd` is 45, not 315 -/
+example : (ugridMod 0 45 8).rotate 7 = [315, 0, 45, 90, 135, 180, 225, 270] := by decide +kernel
+example : dd (some [315, 0, 45, 90, 135, 180, 225, 270]) = 45 := by decide +kernel
+example := dd_rot_rev 0 45 8 7 (by decide) (by norm_num)
+example := dd_rot_rev 5 180 2 1 (by decide) (by norm_num)
+example : ∀ j < 3, j ≠ dpIdx 3 [[1, 5, 2], [0, 1, 1]] →
+    getR (colSums 3 [[1, 5, 2], [0, 1, 1]]) j < getR (colSums 3 [[1, 5, 2], [0, 1, 1]]) (dpIdx 3 [[1, 5, 2], [0, 1, 1]]) := by
+  decide +kernel
+example := dp_rotate_unique_max 3 2 (by decide) [10, 130, 250] [[1, 5, 2], [0, 1, 1]] rfl (by decide)
+  (by decide +kernel)
+example := dp_perm_is_maximiser 3 (by decide) (σ := [2, 0, 1]) (by decide) [10, 130, 250] [[1, 0, 1]]
+example := rowsPerm_reorder (σ := [2, 0, 1]) (m := 3) (by decide) [[1, 2, 3], [4, 5, 6]] (by decide)
+example := oned_perm 120 (rowsPerm_rotate [[1, 2, 3], [4, 5, 6]] 1)
+example := hsE_perm (333/1000) (1/4) true 120 [1/10, 2/10] (rowsPerm_reverse [[1, 2, 3], [4, 5, 6]])
+example := momdRow_perm 120 (alike_rotate [0, 1, -1] [[1, 2, 3], [4, 5, 6]] 1 (by decide))
+example := dpmVec_perm 120 (rowsPerm_reverse [[1, 2, 3], [4, 5, 6]])
+  (alike_reverse [0, 1, -1] [[1, 2, 3], [4, 5, 6]] (by decide)) (alike_reverse [1, 0, 0] [[1, 2, 3], [4, 5, 6]] (by decide))
+example := ussSum_perm 120 [1, 1] [1/10, 2/10] (alike_rotate [1, 1, 1] [[1, 2, 3], [4, 5, 6]] 2 (by decide))
+example := toEnergy_perm 120 [1/10, 2/10] (alike_rotate [10, 130, 250] [[1, 2, 3], [4, 5, 6]] 2 (by decide))
+example := colSums_rotate 3 2 [[1, 5, 2], [0, 1, 1]] (by decide)
+example := colSums_reverse 3 [[1, 5, 2], [0, 1, 1]] (by decide)
+example := dd_of_circAdj 45 _ (by norm_num) (by norm_num) (by decide)
+  (circAdj_rotate (circAdj_ugridMod 0 45 8 (by norm_num) (by norm_num) (by norm_num)) 7)
+example := uniform_bounds 45 8 (by decide) (by norm_num)
+example := dd_uniform (-10) 120 3 (by decide) (by norm_num)
+example := dp_reverse_unique_max 3 (by decide) [10, 130, 250] [[1, 5, 2], [0, 1, 1]] rfl (by decide)
+  (by decide +kernel)
+example := dp_perm_unique_max 3 (by decide) (σ := [2, 0, 1]) (by decide) [10, 130, 250] [[1, 5, 2], [0, 1, 1]]
+  (by decide +kernel)
+
 end WS.C05
